@@ -37,7 +37,7 @@ SUBP = {"cls": "inherit", "sources": {"IQ": ["tbl", "tq", None, None]}, "steps":
 SUBP2 = {"cls": "inherit", "sources": {"IQ2": ["tbl", "tq2", None, None]}, "steps": [["from_", [["src", "IQ2"]]], ["select", [["col", "IQ2", "k1"], ["col", "IQ2", "k2"]]]]}
 SUBU = {"cls": "inherit", "sources": {"IQ": ["tbl", "tq", None, None], "IQ2": ["tbl", "tq2", None, None]},
         "steps": [["from_", [["src", "IQ"]]], ["select", [["col", "IQ", "k1"]]], ["union", [["q", {"cls": "inherit", "sources": {}, "steps": [["from_", [["src", "IQ2"]]], ["select", [["col", "IQ2", "k1"]]]]}]]]]}
-AUTO = ("QN", "QN2", "UN")  # query-valued sources without an alias of their own: the statement names them sq0, sq1, ... in the order they are added
+AUTO = ("QN", "QN2", "UN", "QD")  # query-valued sources without an alias of their own: the statement names them sq0, sq1, ... in the order they are added
 POOL = {
     "P": ["tbl", "tp", None, None], "B": ["tbl", "tb", None, None], "D": ["tbl", "td", None, None],
     "A": ["tbl", "ta", None, "xa"], "P2": ["tbl", "tp", None, "p2"], "S": ["tbl", "ts", "sc", None], "SA": ["tbl", "ts", "sc", "sa"],
@@ -49,7 +49,7 @@ POOL = {
     "X2": ["tbl", "tb", None, "tp2"],  # another table that already answers to the name the first self-join of tp would get
     "Q": ["sub", SUBP, "qq"], "QN": ["sub", SUBP, None], "QN2": ["sub", SUBP2, None], "UN": ["sub", SUBU, None],
     # QU: a query object an earlier statement used already: it carries the alias sq0 from there
-    "QU": ["sub", SUBP2, None, {"preused": True}], "C": ["cte", "cc"], "F": ["tbl", "tf", None, None],
+    "QU": ["sub", SUBP2, None, {"preused": True}], "QD": ["sub", SUBP2, None, {"preused": True, "derived": True}], "C": ["cte", "cc"], "F": ["tbl", "tf", None, None],
 }
 
 
@@ -353,7 +353,7 @@ def program(draw):
 
 
 # ---- enumerated family: combinations of sources whose names interact (always tested, whatever the random draws do) -----------------
-COMBOS = [("P", "P3"), ("P", "P3", "P4"), ("P", "X2", "P3"), ("P", "QX2", "P3"), ("D", "P", "P3"), ("S", "TS"), ("QU", "QN2"), ("QN", "QU"), ("UN", "QN"), ("D", "UN", "QN2"),
+COMBOS = [("QU", "QD"), ("QD", "QN"), ("D", "QD"), ("P", "P3"), ("P", "P3", "P4"), ("P", "X2", "P3"), ("P", "QX2", "P3"), ("D", "P", "P3"), ("S", "TS"), ("QU", "QN2"), ("QN", "QU"), ("UN", "QN"), ("D", "UN", "QN2"),
           ("P2", "P", "P3"), ("A", "SA", "Q"), ("C", "D")]
 
 
@@ -488,7 +488,7 @@ def check_program(case):
                 fail = "missing_qualifier" if got is None else ("underlying_name_instead_of_alias" if key and POOL[key][0] == "tbl" and got == POOL[key][1] else "wrong_qualifier")
             if not ok:
                 shape = "aliased" if key and is_aliased(key) else (POOL[key][0] if key else "none")
-                shape = {"QU": "preused_query", "UN": "auto_setop", "QN": "auto_query", "QN2": "auto_query", "P3": "self_join", "P4": "self_join", "TS": "self_join"}.get(key, shape)
+                shape = {"QD": "derived_from_preused", "QU": "preused_query", "UN": "auto_setop", "QN": "auto_query", "QN2": "auto_query", "P3": "self_join", "P4": "self_join", "TS": "self_join"}.get(key, shape)
                 sig = mksig(cls if pos in ("update_orderby", "returning") or case["kind"].startswith("update_j") else "any", case["kind"], pos, shape, fail)
                 if any(o[2] == "corr_outer_sel" for o in case["occ"]) and pos in ("corr_outer_sel", "corr_select"):
                     # one root cause whatever the two sources are: the inner query does not see that its select list names an outer table
